@@ -530,7 +530,7 @@ Definition eng_token (inp impl : node) : verdict :=
       (* a generated nonce has "at least 12 bytes": its exact length is the implementation's choice *)
       let m := match m, impl with
                | List [Str _; Int _], List [Str o; Int l] =>
-                   if (nl <? 0)%Z && str_eqb o (lit "ok") && (12 <=? l)%Z then impl else m
+                   if (nl <=? 0)%Z && str_eqb o (lit "ok") && (12 <=? l)%Z then impl else m
                | _, _ => m
                end in
       {| model_obs := m;
